@@ -250,6 +250,7 @@ def defaults(ck, ctx):
 
 
 def run(ck, ctx):
+    C.adapter_census(ck, ctx, "closure", ("run::", "work::", "load::", "graph::"))
     selection(ck, ctx)
     traversal(ck, ctx)
     flags(ck, ctx)
